@@ -245,6 +245,44 @@ def aff_max(a, b):
     return aff(a) if s >= 0 else aff(b)
 
 
+# ----------------------------------------------------------------------------- NFFT as a number
+NFFT_AFF = [None]      # the affine form of NFFT in the current context (2m, 2m+1 or the symbol NFFT)
+
+
+def nfft_degree(a):
+    """exponent of NFFT carried by the integer expression `a` when it is used as a number:
+    0 if it does not mention NFFT's symbols, 1 if it is a constant multiple of NFFT, TOP otherwise"""
+    n = NFFT_AFF[0]
+    if a is None or n is None:
+        return F(0)
+    syms = set(n.t)
+    if not (set(a.t) & syms):
+        return F(0)
+    # proportional?
+    k = None
+    for s_ in n.t:
+        if s_ not in a.t:
+            return TOP
+        r = a.t[s_] / n.t[s_]
+        if k is None:
+            k = r
+        elif k != r:
+            return TOP
+    if set(a.t) - syms:
+        return TOP
+    if a.c != n.c * k:
+        return TOP
+    return F(1)
+
+
+def pure_nfft_nonhomogeneous(a):
+    """`a` is a function of NFFT alone that is not proportional to it (e.g. NFFT/2+1)"""
+    n = NFFT_AFF[0]
+    if a is None or n is None:
+        return False
+    return bool(a.t) and set(a.t) <= set(n.t) and nfft_degree(a) is TOP
+
+
 # ----------------------------------------------------------------------------- degrees (D1)
 COMPS = ('s', 'g', 'hz', 'nfft', 'win', 'sy', 'gy')
 
@@ -556,7 +594,7 @@ def tonum(v):
         return v
     if isinstance(v, IntV):
         d = zero_deg()
-        d['nfft'] = v.nfft
+        d['nfft'] = nfft_degree(v.a) if v.a is not None else F(0)
         n = Num(d, (), False, taint=v.taint, nonneg=False)
         n.ex = v.a
         n.sx = v.sx
